@@ -6,7 +6,8 @@ against the probe (disagreement = translator error).  An unknown shape is not an
 translator, and a sentence goes to ADVISORIES (the pipeline then widens the correspondence run).
 
   Gen.Route.mtypes          message type name -> code the type constraint is compared with
-                            probe: a rule `mtype=<name>` against messages of every type code (cross-check: router._mtypes)
+                            probe: a rule `mtype=<name>` against messages of every type code (cross-check: the module-level
+                            table of type names, `router._mtypes` or whatever dict str -> int knows 'signal')
   Gen.Route.addKeys         for every parameter of MessageRouter.addMatch: the message attribute it is compared with,
   Gen.Route.simpleKeys      or `path_namespace` / `args` / `arg_paths` (evaluated as such), or its own name (not
   Gen.Route.mtypeLookup     evaluated).  probe: a rule with that parameter alone against duck-typed messages that
@@ -86,8 +87,10 @@ class _Quiet:
 
 def _delivered(router_mod, kwargs, **attrs):
     """Does a fresh MessageRouter hand a message with these attributes to the callback of the rule `kwargs`?"""
-    saved = router_mod.log
-    router_mod.log = _Quiet()
+    from twisted.python import log as twisted_log
+    swapped = [(n, v) for n, v in list(vars(router_mod).items()) if v is twisted_log]
+    for n, _ in swapped:
+        setattr(router_mod, n, _Quiet())
     try:
         r = router_mod.MessageRouter()
         hits = []
@@ -97,7 +100,8 @@ def _delivered(router_mod, kwargs, **attrs):
         r.routeMessage(_Msg(**d))
         return len(hits) == 1
     finally:
-        router_mod.log = saved
+        for n, v in swapped:
+            setattr(router_mod, n, v)
 
 
 def _router_params(router_mod):
@@ -180,13 +184,25 @@ def probe_router(router_mod):
         # for the mode; `False` = "the value is stored as given" is what an unevaluated constraint amounts to
         lookup = False
     if not mtypes:
-        mt = getattr(router_mod, '_mtypes', None)
+        mt = find_type_table(router_mod)
         if isinstance(mt, dict):
             mtypes = sorted(mt.items(), key=lambda kv: (kv[1], kv[0]))
         else:
-            raise ValueError('probe: no type constraint is evaluated and router._mtypes does not exist')
+            raise ValueError('probe: no type constraint is evaluated and the router has no table of type names')
     return (canon_sorted(pairs, CANON_PARAMS, key=lambda x: x[0]), canon_sorted(sorted(set(simple)), CANON_SIMPLE),
             lookup, sorted(mtypes, key=lambda kv: (kv[1], kv[0])))
+
+
+def find_type_table(router_mod):
+    """The module-level table of type names (`router._mtypes` is its private name today; after a rename it is
+    found by its shape: a dict str -> int that knows 'signal').  None when there is no such table."""
+    mt = getattr(router_mod, '_mtypes', None)
+    if isinstance(mt, dict):
+        return mt
+    cands = [v for k, v in vars(router_mod).items()
+             if isinstance(v, dict) and v and all(isinstance(a, str) and isinstance(b, int) for a, b in v.items())
+             and 'signal' in v]
+    return cands[0] if len(cands) == 1 else None
 
 
 def probe_ids(router_mod):
@@ -276,44 +292,76 @@ def probe_client(client_mod):
 
 
 # ----------------------------------------------------------------------------------------------- probing: bus
-def probe_bus(bus_mod, router_mod):
-    """Keys of the rule text that dbus_AddMatch passes on under their own name (after type -> mtype)."""
+def _bus_router(b):
+    r = getattr(b, 'router', None)
+    if r is not None and hasattr(r, 'addMatch'):
+        return r
+    for v in vars(b).values():
+        if hasattr(v, 'addMatch') and hasattr(v, 'routeMessage') and hasattr(v, 'delMatch'):
+            return v
+    raise ValueError('probe: the router of the Bus object was not found')
+
+
+def _bus_peer(bus_mod, b):
+    """A connection the bus knows: a real BusProtocol announced through Bus.clientConnected; fallback a stand-in."""
+    try:
+        from twisted.internet.testing import StringTransport
+        from twisted.internet.protocol import Factory
+        f = Factory()
+        f.protocol = bus_mod.BusProtocol
+        f.bus = b
+        p = f.buildProtocol(None)
+        p.makeConnection(StringTransport())
+        p._authenticated = True
+        p.connectionAuthenticated()
+        b.clientConnected(p)
+        p.sendMessage = lambda m: None
+        if isinstance(getattr(p, 'uniqueName', None), str):
+            return p
+    except Exception:
+        pass
+
     class Peer:
         uniqueName = ':1.1'
 
         def __init__(self):
             self.matchRules = set()
             self.busNames = {}
+            self.isConnected = True
 
         def sendMessage(self, m):
             pass
-    keys = []
-    for k in _router_params(router_mod):
+    peer = Peer()
+    b.clients[peer.uniqueName] = peer
+    return peer
+
+
+def probe_bus(bus_mod, router_mod):
+    """Keys of the rule text that dbus_AddMatch passes on under their own name (after type -> mtype)."""
+    def run(text):
         b = bus_mod.Bus()
-        peer = Peer()
-        b.clients[peer.uniqueName] = peer
+        peer = _bus_peer(bus_mod, b)
+        rt = _bus_router(b)
         seen = []
-        real = b.router.addMatch
+        real = rt.addMatch
 
         def spy(cb, **kw):
             seen.append(kw)
             return real(cb)
-        b.router.addMatch = spy
+        rt.addMatch = spy
+        b.dbus_AddMatch(text, dbusCaller=peer.uniqueName)
+        return seen
+    seen = run("type='v'")
+    if not seen or seen[0].get('mtype') != 'v':
+        raise ValueError("probe: dbus_AddMatch does not pass type='v' on as mtype")
+    keys = []
+    for k in _router_params(router_mod):
         try:
-            b.dbus_AddMatch("%s='v'" % k, dbusCaller=':1.1')
+            seen = run("%s='v'" % k)
         except Exception:
             continue
         if seen and seen[0].get(k) == 'v':
             keys.append(k)
-    # `type` is the spelling of mtype in a rule text
-    b = bus_mod.Bus()
-    peer = Peer()
-    b.clients[peer.uniqueName] = peer
-    seen = []
-    b.router.addMatch = lambda cb, **kw: seen.append(kw) or 0
-    b.dbus_AddMatch("type='v'", dbusCaller=':1.1')
-    if not seen or seen[0].get('mtype') != 'v':
-        raise ValueError("probe: dbus_AddMatch does not pass type='v' on as mtype")
     return canon_sorted(keys, CANON_BUS)
 
 
@@ -478,12 +526,13 @@ def emit(repo):
         return (prs, lk if any(k == '_messageType' for _, k in prs) else None)
     cross_check('router.Rule.add / MessageRouter.addMatch', lambda: recognise_router(router), typed(pairs, lookup),
                 project=lambda r: typed(behaviour_of(r[0], r[1]), r[2]))
-    mt = getattr(router, '_mtypes', None)
+    mt = find_type_table(router)
     if isinstance(mt, dict):
         if sorted(mt.items(), key=lambda kv: (kv[1], kv[0])) != mtypes:
-            raise ValueError('router._mtypes is %r but type constraints behave as %r' % (mt, mtypes))
+            raise ValueError('the router\'s table of type names is %r but type constraints behave as %r' % (mt, mtypes))
     else:
-        ADVISORIES.append('router._mtypes not found; the table of type names was derived by probing type constraints')
+        ADVISORIES.append('no module-level table of type names found in txdbus.router; the table was derived by probing '
+                          'type constraints')
     cross_check('bus.Bus.dbus_AddMatch kwargs', lambda: recognise_bus(bus), bk)
     cross_check('client.DBusClientConnection.addMatch text keys', lambda: recognise_client(client), [k for k, _ in ck])
 
